@@ -5,14 +5,17 @@
    in batch order within the branch and in any interleaving across branches; an ack becomes terminal
    only when all M branches acked, a nack is terminal at once; releaseLocked hands a maximal
    terminal PREFIX to the parent (the worker: Source.Ack for acked runs, DLQ + Source.Ack for
-   nacked ones) and advances `released` only when the parent call succeeded.
+   nacked ones) and advances `released` only when the parent call succeeded - for an acked run as well as
+   for a nacked position; after a failed parent call the branches that are still in flight keep voting and
+   every later release re-attempts the call that failed (FailAt = which parent call of a release fails).
    Properties: NoEarlyAck (the parent is told "ack i" only if every branch acked i), PrefixRelease
    (parent calls cover 1..released in order, each index exactly once unless a failed Nack is
    retried), NackWins, AllReleased (once every branch has voted on everything and the parent never
    fails, everything was released).                                                             *)
-EXTENDS Naturals, Sequences, FiniteSets, TLC
+EXTENDS Naturals, Sequences, FiniteSets, TLC, Json
 
-CONSTANTS N, M, AllowParentFail
+CONSTANTS N, M, AllowParentFail,
+          Emit        \* TRUE: print every complete voting history with the expected parent calls (conformance cases)
 
 Idx == 1..N
 Br == 1..M
@@ -20,59 +23,76 @@ Br == 1..M
 VARIABLES voted,     \* voted[b]: how many positions branch b has reported so far (in batch order)
           outcome,   \* outcome[b][i] \in {"-", "ack", "nack"}
           ackVotes, terminal, acked, released,
-          calls,     \* parent calls so far: <<"ack", from, to>> | <<"nack", i, ok>>
-          failed     \* a parent call failed: the pipeline is stopping
-vars == <<voted, outcome, ackVotes, terminal, acked, released, calls, failed>>
+          calls,     \* parent calls so far: <<"ack", from, to, ok>> | <<"nack", i, i, ok>>
+          failed,    \* some parent call has failed (the pipeline is stopping; branches in flight still vote)
+          script     \* history: the votes <<b, isAck, len, failAt>> (conformance cases)
+vars == <<voted, outcome, ackVotes, terminal, acked, released, calls, failed, script>>
 
 Init == /\ voted = [b \in Br |-> 0] /\ outcome = [b \in Br |-> [i \in Idx |-> "-"]]
         /\ ackVotes = [i \in Idx |-> 0] /\ terminal = [i \in Idx |-> FALSE] /\ acked = [i \in Idx |-> FALSE]
-        /\ released = 0 /\ calls = <<>> /\ failed = FALSE
+        /\ released = 0 /\ calls = <<>> /\ failed = FALSE /\ script = <<>>
 
-\* releaseLocked, as a function of the tally: returns <<released', calls', failed'>>
-RECURSIVE Release(_, _, _, _, _)
-Release(term, ak, rel, cs, parentOk) ==
+\* releaseLocked, as a function of the tally: returns <<released', calls', failed-in-this-release>>.
+\* made = parent calls issued so far in this release; the failAt-th one fails (0 = none) and ends the release.
+RECURSIVE Release(_, _, _, _, _, _)
+Release(term, ak, rel, cs, failAt, made) ==
   IF rel >= N \/ ~term[rel + 1] THEN <<rel, cs, FALSE>>
   ELSE IF ak[rel + 1]
     THEN LET RECURSIVE Upto(_)
              Upto(k) == IF k < N /\ term[k + 1] /\ ak[k + 1] THEN Upto(k + 1) ELSE k
              to == Upto(rel) IN
-         Release(term, ak, to, Append(cs, <<"ack", rel + 1, to>>), parentOk)
-    ELSE IF parentOk
-      THEN Release(term, ak, rel + 1, Append(cs, <<"nack", rel + 1, TRUE>>), parentOk)
-      ELSE <<rel, Append(cs, <<"nack", rel + 1, FALSE>>), TRUE>>
+         IF failAt = made + 1 THEN <<rel, Append(cs, <<"ack", rel + 1, to, FALSE>>), TRUE>>
+         ELSE Release(term, ak, to, Append(cs, <<"ack", rel + 1, to, TRUE>>), failAt, made + 1)
+    ELSE IF failAt = made + 1 THEN <<rel, Append(cs, <<"nack", rel + 1, rel + 1, FALSE>>), TRUE>>
+         ELSE Release(term, ak, rel + 1, Append(cs, <<"nack", rel + 1, rel + 1, TRUE>>), failAt, made + 1)
 
-\* branch b reports its next position (a batch-level Ack / Nack call is a run of these)
-Vote(b, isAck, parentOk) ==
-  /\ ~failed /\ voted[b] < N
-  /\ (parentOk \/ AllowParentFail)
-  /\ LET i == voted[b] + 1
-         skip == terminal[i]
-         av == IF isAck /\ ~skip THEN [ackVotes EXCEPT ![i] = @ + 1] ELSE ackVotes
-         tm == IF skip THEN terminal
-               ELSE IF isAck THEN [terminal EXCEPT ![i] = av[i] = M] ELSE [terminal EXCEPT ![i] = TRUE]
-         ak == IF skip THEN acked
-               ELSE IF isAck THEN [acked EXCEPT ![i] = av[i] = M] ELSE [acked EXCEPT ![i] = FALSE]
-         r == Release(tm, ak, released, calls, parentOk) IN
-     /\ voted' = [voted EXCEPT ![b] = i]
-     /\ outcome' = [outcome EXCEPT ![b][i] = IF isAck THEN "ack" ELSE "nack"]
-     /\ ackVotes' = av /\ terminal' = tm /\ acked' = ak
-     /\ released' = r[1] /\ calls' = r[2] /\ failed' = r[3]
+\* how many parent calls a release would issue if none failed
+NCalls(term, ak, rel) == Len(Release(term, ak, rel, <<>>, 0, 0)[2])
 
-Next == \E b \in Br, isAck \in BOOLEAN, ok \in BOOLEAN : Vote(b, isAck, ok)
+\* branch b reports its next len positions in ONE Ack / Nack call: all of them are tallied, then one release
+RECURSIVE Tally(_, _, _, _, _, _, _)
+Tally(av, tm, ak, i, last, isAck, dummy) ==
+  IF i > last THEN <<av, tm, ak>>
+  ELSE IF tm[i] THEN Tally(av, tm, ak, i + 1, last, isAck, dummy)
+  ELSE IF isAck
+    THEN LET av2 == [av EXCEPT ![i] = @ + 1] IN
+         Tally(av2, [tm EXCEPT ![i] = av2[i] = M], [ak EXCEPT ![i] = av2[i] = M], i + 1, last, isAck, dummy)
+    ELSE Tally(av, [tm EXCEPT ![i] = TRUE], [ak EXCEPT ![i] = FALSE], i + 1, last, isAck, dummy)
+
+Vote(b, isAck, len, failAt) ==
+  /\ voted[b] + len <= N
+  /\ (failAt = 0 \/ AllowParentFail)
+  /\ LET first == voted[b] + 1
+         last == voted[b] + len
+         t == Tally(ackVotes, terminal, acked, first, last, isAck, 0)
+         r == Release(t[2], t[3], released, calls, failAt, 0) IN
+     /\ failAt <= NCalls(t[2], t[3], released)      \* only a call that is issued can fail
+     /\ voted' = [voted EXCEPT ![b] = last]
+     /\ outcome' = [outcome EXCEPT ![b] = [i \in Idx |-> IF i \in first..last THEN (IF isAck THEN "ack" ELSE "nack") ELSE @[i]]]
+     /\ ackVotes' = t[1] /\ terminal' = t[2] /\ acked' = t[3]
+     /\ released' = r[1] /\ calls' = r[2] /\ failed' = (failed \/ r[3])
+     /\ script' = Append(script, <<b, isAck, len, failAt>>)
+
+Next == \E b \in Br, isAck \in BOOLEAN, len \in 1..N, f \in 0..2 : Vote(b, isAck, len, f)
 Spec == Init /\ [][Next]_vars
 
-AckedTo(c) == IF c[1] = "ack" THEN c[2]..c[3] ELSE {}
+Ok(c) == c[4]
+AckedTo(c) == IF c[1] = "ack" /\ Ok(c) THEN c[2]..c[3] ELSE {}
 NoEarlyAck == \A k \in DOMAIN calls : \A i \in AckedTo(calls[k]) : \A b \in Br : outcome[b][i] = "ack"
-\* the successful parent calls cover 1..released, in order, without gaps or repeats
+\* the successful parent calls cover 1..released, in order, without gaps or repeats; a failed call covers nothing
+\* and is re-attempted from the same place
 Covered == LET RECURSIVE Cov(_, _)
                Cov(k, upto) == IF k > Len(calls) THEN upto
                                ELSE LET c == calls[k] IN
-                                    IF c[1] = "ack" THEN (IF c[2] = upto + 1 THEN Cov(k + 1, c[3]) ELSE N + 100)
-                                    ELSE IF c[3] THEN (IF c[2] = upto + 1 THEN Cov(k + 1, c[2]) ELSE N + 100)
-                                    ELSE (IF c[2] = upto + 1 THEN Cov(k + 1, upto) ELSE N + 100)
+                                    IF c[2] # upto + 1 THEN N + 100
+                                    ELSE IF Ok(c) THEN Cov(k + 1, c[3]) ELSE Cov(k + 1, upto)
            IN Cov(1, 0)
 PrefixRelease == Covered = released
 NackWins == \A k \in DOMAIN calls : calls[k][1] = "nack" => \E b \in Br : outcome[b][calls[k][2]] = "nack"
 AllVoted == \A b \in Br : voted[b] = N
 AllReleased == (AllVoted /\ ~failed) => released = N
+
+Case == [n |-> N, m |-> M, votes |-> script, calls |-> calls, released |-> released]
+EmitCase == (Emit /\ AllVoted) => PrintT("CASE " \o ToJson(Case))
+View == <<voted, outcome, ackVotes, terminal, acked, released, calls, failed>>
 =============================================================================
